@@ -92,6 +92,36 @@ def has_date_key(v) -> bool:
     return False
 
 
+def reinsert_nulls(v, tree):
+    """the parsed TOML tree with the keys of None-valued dataclass fields put back (value and tree walked in parallel)"""
+    if dataclasses.is_dataclass(v) and isinstance(tree, dict):
+        out = dict(tree)
+        for f in dataclasses.fields(v):
+            x = getattr(v, f.name)
+            if f.name in tree:
+                out[f.name] = reinsert_nulls(x, tree[f.name])
+            elif x is None:
+                out[f.name] = None
+        return out
+    if isinstance(v, dict) and isinstance(tree, dict) and len(v) == len(tree):
+        return {k2: reinsert_nulls(x, t2) for (k, x), (k2, t2) in zip(v.items(), tree.items())}
+    if isinstance(v, (list, tuple, set, frozenset)) and isinstance(tree, (list, tuple)) and len(v) == len(tree):
+        return [reinsert_nulls(x, t) for x, t in zip(v, tree)]
+    return tree
+
+
+def toml_counterfactual(entry: L.Entry, v) -> bool:
+    from mashumaro.codecs.basic import BasicDecoder
+    from mashumaro.mixins.toml import TOMLDialect
+    tree = reinsert_nulls(v, L.parse_doc("toml", entry.encode(v)))
+    if entry.kind in ("mixin", "mixin-str"):
+        w = entry.shape.from_toml(tree, decoder=L.ident, **entry.kw)
+    else:
+        dd = TOMLDialect.merge(entry.dialect) if entry.dialect is not None else TOMLDialect
+        w = BasicDecoder(entry.shape, default_dialect=dd).decode(tree)
+    return L.same(w, v)
+
+
 def _srcable(w) -> bool:
     try:
         L.vsrc(w)
@@ -196,11 +226,37 @@ def reaches_selfref(S: L.Schema, shp: L.T) -> bool:
     return bool({"selfopt", "selflist"} & L.kinds_deep(shp, S))
 
 
-def signature(S: L.Schema, F: str, kind: str, phase: str, observed: str, v, shp=None) -> dict:
+def reaches_selfref_by_name(S: L.Schema, shp: L.T) -> bool:
+    """the shape reaches a dataclass with a field that names its own class (forward reference, not typing.Self)"""
+    seen = set()
+
+    def walk(t):
+        if t.kind in ("selfopt", "selflist") and not (t.args and t.args[0]):
+            return True
+        if t.name and t.kind in ("dc", "nt", "td", "dbase") and t.name not in seen and t.name in S.classes:
+            seen.add(t.name)
+            if any(walk(ft) for _, ft, _ in S.classes[t.name].get("fields", [])):
+                return True
+        for a in t.args:
+            if isinstance(a, L.T) and walk(a):
+                return True
+            if isinstance(a, (list, tuple)) and any(isinstance(x, L.T) and walk(x) for x in a):
+                return True
+        return False
+    return walk(shp)
+
+
+def signature(S: L.Schema, F: str, kind: str, phase: str, observed: str, v, shp=None, counterfactual=None,
+              dialect_given=False) -> dict:
     sig = {"format": F, "entry": kind, "phase": phase, "kind": "other"}
     if kind in ("codec", "func") and phase in ("build", "encode", "decode") and shp is not None and reaches_selfref(S, shp) \
             and observed.startswith("AttributeError: type object 'attrs_") and "has no attribute '__mashumaro_" in observed:
         sig["kind"] = "codec-self-referencing-dataclass"
+        return sig
+    if shp is not None and F in ("orjson", "msgpack", "toml") and kind == "mixin" and dialect_given \
+            and "AttributeError" in observed and "has no attribute '__mashumaro_" in observed and "_dict_" in observed \
+            and reaches_selfref_by_name(S, shp):
+        sig["kind"] = "call-dialect-self-by-name-missing-format-method"
         return sig
     if shp is not None and F in ("orjson", "msgpack", "toml") and kind in ("mixin", "mixin-str") \
             and "dbase" in L.kinds_deep(shp, S) and phase != "composition":
@@ -214,17 +270,14 @@ def signature(S: L.Schema, F: str, kind: str, phase: str, observed: str, v, shp=
         sig["kind"] = "orjson-library-time-microseconds-5-digits"
     if F == "toml" and (phase in ("decode", "roundtrip") or phase_class == "decode-or-roundtrip"):
         hits = none_fields_without_none_default(S, v)
-        if hits:
-            # decode raised on a document from which a None-valued key without a None default was omitted.  The
-            # MissingField is not always visible in the exception chain (a union position swallows it and raises
-            # InvalidFieldValue / ValueError(<document>) `from None`; deep nesting truncates the chain), so any
-            # decode *exception* of these classes on such a value is attributed to the finding; wrong *values* and
-            # every value without such a field stay unattributed.
-            if phase != "roundtrip" and not phase.endswith("-doc") and \
-                    observed.split(":")[0] in ("MissingField", "InvalidFieldValue", "ValueError"):
-                sig["kind"] = "toml-omitted-none-field-without-none-default"
-            elif phase == "roundtrip" or (phase_class == "decode-or-roundtrip" and "Error" not in observed.split(":")[0]):
-                sig["kind"] = "toml-omitted-none-field-without-none-default"
+        if hits and counterfactual is not None:
+            # counterfactual: put the omitted None-valued keys back into the parsed document and decode that tree with
+            # the same (TOML-dialect) unpacker: if the original value comes back, the omission alone caused the failure
+            try:
+                if counterfactual():
+                    sig["kind"] = "toml-omitted-none-field-without-none-default"
+            except Exception:
+                pass
     return sig
 
 
@@ -332,6 +385,10 @@ def oracle(ctx: vlib.Ctx, n_schemas: int, n_values: int, focus: str | None = Non
                                 specs.append(("codec", xd))
                             if on_root:
                                 specs.append(("mixin", xd))
+                        # the order in which the entry points are first used varies (methods are compiled on demand);
+                        # a codec spec stays ahead of the mixin spec it is compared with
+                        if rng.random() < 0.5:
+                            specs = [sp for sp in specs if sp[1]] + [sp for sp in specs if not sp[1]]
                         built = {}
                         for kind, xd in specs:
                             label = kind + ("+dialect" if xd else "")
@@ -382,7 +439,9 @@ def oracle(ctx: vlib.Ctx, n_schemas: int, n_values: int, focus: str | None = Non
                                 ctx.sample({"shape": shape_ann, "format": F, "entry": label, "dialect": xd, "value": L.vsrc(v)[:300]})
                             for phase, observed, expected in fails:
                                 nfail += 1
-                                sig = signature(S, F, kind, phase, observed, v, shp)
+                                sig = signature(S, F, kind, phase, observed, v, shp,
+                                                (lambda e_=entry, v_=v: toml_counterfactual(e_, v_)) if (F == "toml" and entry is not None) else None,
+                                                dialect_given=bool(xd))
                                 if xd:
                                     sig["dialect"] = xd
                                 ctx.hist("failures", f"{F}:{label}:{phase}:{sig['kind']}")
@@ -453,6 +512,9 @@ def correspondence_cases(ctx: vlib.Ctx, n_schemas: int, n_values: int):
                         continue
                     if F == "orjson" and has_orjson_bad_time(v) and orjson_time_defect_present():
                         ctx.hist("correspondence_skipped", "orjson-library-time-defect")
+                        continue
+                    if dm and F in ("orjson", "msgpack", "toml") and reaches_selfref_by_name(S, root):
+                        ctx.hist("correspondence_skipped", "known-finding-call-dialect-self-by-name")
                         continue
                     entry = L.Entry(F, "mixin", rootcls, dialect=xd)
                     nb = entry.native_tree(v)
